@@ -586,3 +586,51 @@ func VerifC01_StartWrapper() {
 	_ = stopModules()
 	rt.Reach("startwrapper-end")
 }
+
+// ---- the real Start() with prep routines that change what is wanted: the
+// set of modules that is started is the one wanted when the prep phase is
+// over (a prep routine learns from the flags that its module cannot run and
+// disables it, or switches another module on) ----
+
+func VerifC01_StartWithPrepTogglingModules() {
+	resetModuleSystem()
+	rt.SchedYieldOnly(true)
+	initialStartCompleted.UnSet()
+	globalPrepFn, cmdLineOperation = nil, nil
+	started := map[string]int{}
+	reg := func(name string, prep func() error, deps ...string) *Module {
+		return Register(name, prep, func() error { started[name]++; return nil }, func() error { started[name]--; return nil }, deps...)
+	}
+	EnableModuleManagement(func(*Module) {})
+	base := reg("base", nil)
+	storage := reg("storage", nil, "base")
+	variant := rt.Choice("variant", 2)
+	var feature, sw *Module
+	switch variant {
+	case 0:
+		// the enabled module disables itself in its prep routine
+		feature = reg("feature", func() error { feature.Disable(); return nil }, "storage")
+		feature.Enable()
+	case 1:
+		// the enabled module enables another one in its prep routine
+		feature = reg("feature", nil, "storage")
+		sw = reg("switch", func() error { feature.Enable(); return nil })
+		sw.Enable()
+	}
+	err := Start()
+	rt.Assert(err == nil, "preptoggle/start-ok")
+	rt.Quiesce(time.Second)
+	for _, m := range []*Module{base, storage, feature} {
+		rt.Assert(m.Online() == (variant == 1), "preptoggle/online-iff-wanted-after-prep")
+		rt.Assert(started[m.Name] == map[bool]int{false: 0, true: 1}[variant == 1], "preptoggle/started-iff-wanted")
+	}
+	if sw != nil {
+		rt.Assert(sw.Online(), "preptoggle/online-iff-wanted-after-prep")
+	}
+	shutdownFlag.Set()
+	_ = stopModules()
+	for _, m := range []*Module{base, storage, feature} {
+		rt.Assert(!m.Online() && started[m.Name] == 0, "preptoggle/everything-started-is-stopped")
+	}
+	rt.Reach("preptoggle-end")
+}
